@@ -579,7 +579,7 @@ def pick_hard_kw(target, which=0):
 
 
 LINKS = ["plain", "hardkw", "hardkwlate", "hardpos", "shadow", "popb", "getb", "star", "hardreq"]
-CLASS_LINKS = LINKS + ["super2", "noinit", "nokw", "unused", "popdeep"]
+CLASS_LINKS = LINKS + ["super2", "noinit", "nokw", "unused", "popdeep", "explicit"]  # explicit: Base.__init__(self, **kwargs) instead of super().__init__(**kwargs)
 
 
 def emit_leaf_fn(prog, layout, level, module_lines=None, name=None):
@@ -694,6 +694,12 @@ def emit_class_over(prog, base, link, layout, level, below=None):
     elif link == "unused":
         lines = emit_fn(prog, "__init__", ps, kw, [], ("fwd", FwdNoKw(callee)), indent="    ", first="self", where=where)
         reach = list(ps)
+    elif link == "explicit":
+        # the parent's method called through the class with the instance handed over: `self` is not one of the parent's parameters
+        f = Fwd(f"{base.name}.__init__", ["self"], [], (), False)
+        lines = emit_fn(prog, "__init__", ps, kw, pops, ("fwd", f), indent="    ", first="self", where=where)
+        gone = {p.name for p in ps} | {p[1] for p in pops}
+        reach = ps + [p for p in target.reach if p.name not in gone]
     else:
         f = Fwd(callee, hard_pos, hard_kw, (), star)
         f.kw_late = link == "hardkwlate"
